@@ -25,7 +25,7 @@ pub struct C04 {
 
 impl C04 {
     pub fn new(a: &Args) -> C04 {
-        C04 { seed: a.seed, max_ops: 80, max_bits: 600, lang: a.mode == "lang" }
+        C04 { seed: a.seed, max_ops: if small() { 6 } else { 80 }, max_bits: if small() { 80 } else { 600 }, lang: a.mode == "lang" }
     }
 }
 
@@ -601,7 +601,7 @@ impl C04 {
     fn run(&mut self, idx: u64, obs: &mut Obs) -> Vec<String> {
         let rng = Rng::for_case("C04", self.seed, idx);
         let mut run = Run { rng, pool: Vec::new(), log: Vec::new(), obs, idx, failed: false, max_bits: self.max_bits };
-        let nops = 10 + run.rng.below(self.max_ops);
+        let nops = if small() { 4 } else { 10 } + run.rng.below(self.max_ops);
         for _ in 0..nops {
             run.step();
             if run.failed {
